@@ -29,6 +29,8 @@ type Env struct {
 	selfHeap    []string
 	inOld       bool
 	preEnv      *Env // loop invariants: environment of the state on loop entry, for pre(e)
+	// localsAfter: source-level locals consulted after parameters and results (ensures, at-call)
+	localsAfter func(name string) (Val, bool)
 }
 
 func (e *Env) child() *Env {
@@ -240,6 +242,11 @@ func (e *Env) evalIdent(name string) (Val, error) {
 	}
 	if v, ok := e.vars[name]; ok {
 		return v, nil
+	}
+	if e.localsAfter != nil && !e.inOld {
+		if v, ok := e.localsAfter(name); ok {
+			return v, nil
+		}
 	}
 	switch name {
 	case "nil":
